@@ -1,7 +1,8 @@
 /-
   Property C05 — umbrella: part a (`Props/C05.lean`: plan, tables, address map; one-group forms of
   the round trip / insert = concat / element map) and part b (`Props/C05b.lean`: the general case
-  for arbitrary lists of groups).
+  for arbitrary lists of groups) and part c (`Props/C05c.lean`: the fermionic fuse).
 -/
 import SymmModel.Props.C05
 import SymmModel.Props.C05b
+import SymmModel.Props.C05c
